@@ -26,6 +26,8 @@ pub enum Op {
     /// values_from_panic with rows of these widths
     ValuesFromPanic(Vec<usize>),
     Select(usize),
+    /// select_from with a compound select: (items of the statement itself, items of the UNION ALL operand)
+    SelectUnion(usize, usize),
     Default,
     DefaultMany(u32),
 }
@@ -35,6 +37,8 @@ enum Source {
     None,
     Values(Vec<Vec<i64>>),
     Select(Vec<i64>),
+    /// head items, operand items
+    SelectUnion(Vec<i64>, Vec<i64>),
 }
 
 #[derive(Clone, Debug)]
@@ -226,6 +230,46 @@ pub fn check(history: &Vec<Op>, obs: &mut Obs) -> R {
                     (Err(e), true) => return fail("rejected-matching-select", format!("step {step}: {e:?}; history {history:?}")),
                 }
             }
+            Op::SelectUnion(k, j) => {
+                let head: Vec<i64> = (0..*k as i64).map(|i| base + i).collect();
+                let arm: Vec<i64> = (0..*j as i64).map(|i| base + 500 + i).collect();
+                let mut sel = Query::select();
+                for t in &head {
+                    sel.expr(Expr::val(*t));
+                }
+                let mut other = Query::select();
+                for t in &arm {
+                    other.expr(Expr::val(*t));
+                }
+                sel.union(UnionType::All, other.to_owned());
+                // the select list that counts is the statement's own; an operand of another width makes the SQL invalid
+                // anyway, so only the two clear cases are judged
+                let outcome = stmt.select_from(sel.to_owned()).map(|_| ());
+                match (&outcome, *k == m.cols.len(), *j == m.cols.len()) {
+                    (Ok(()), false, _) => {
+                        return fail("accepted-mismatching-select", format!("step {step}: a compound select whose select list has {k} items was accepted with {} columns; history {history:?}", m.cols.len()))
+                    }
+                    (Err(e), true, true) => return fail("rejected-matching-select", format!("step {step}: {e:?}; history {history:?}")),
+                    (Err(e), false, _) => {
+                        let want = Error::ColValNumMismatch { col_len: m.cols.len(), val_len: *k };
+                        if *e != want {
+                            return fail("wrong-error-counts", format!("step {step}: select_from error {e:?}, expected {want:?}; history {history:?}"));
+                        }
+                    }
+                    _ => {}
+                }
+                match outcome {
+                    Ok(()) => {
+                        accepted += 1;
+                        m.source = Source::SelectUnion(head, arm);
+                        m.src_first_step = Some(step);
+                    }
+                    Err(_) => {
+                        rejected += 1;
+                        unchanged(&stmt, &before, &before_dbg, step, history)?;
+                    }
+                }
+            }
             Op::Default => {
                 stmt.or_default_values();
                 m.default = Some(1);
@@ -411,6 +455,53 @@ fn verify_render(d: Dialect, sql: &str, vals: Option<&Values>, m: &Model, histor
                 );
             }
         }
+        Source::SelectUnion(head, arm) => {
+            let mut read_select = |i: &mut usize, param_i: &mut usize| -> Option<Vec<i64>> {
+                if !word(*i, "SELECT") {
+                    return None;
+                }
+                *i += 1;
+                let mut got = vec![];
+                while let Some(v) = cell(t.get(*i), param_i) {
+                    got.push(v);
+                    *i += 1;
+                    if t.get(*i) == Some(&&Tok::Comma) {
+                        *i += 1;
+                    } else {
+                        break;
+                    }
+                }
+                Some(got)
+            };
+            let Some(got_head) = read_select(&mut i, &mut param_i) else { return bad("select-keyword") };
+            if !word(i, "UNION") || !word(i + 1, "ALL") {
+                return bad("union-keyword");
+            }
+            i += 2;
+            let paren = t.get(i) == Some(&&Tok::LParen);
+            if paren {
+                i += 1;
+            }
+            let Some(got_arm) = read_select(&mut i, &mut param_i) else { return bad("union-operand") };
+            if paren {
+                if t.get(i) != Some(&&Tok::RParen) {
+                    return bad("union-operand-close");
+                }
+                i += 1;
+            }
+            if i != t.len() {
+                return bad("trailing-tokens");
+            }
+            if &got_head != head || &got_arm != arm {
+                return bad("select-items-differ");
+            }
+            if got_head.len() != cols.len() {
+                return fail(
+                    if m.redeclared() { "non-rectangular/columns-redeclared-after-select".to_string() } else { "non-rectangular-select".to_string() },
+                    format!("[{mode}] {}: {sql:?} has {} columns but {} select items; history {history:?}", d.name(), cols.len(), got_head.len()),
+                );
+            }
+        }
         Source::Select(items) => {
             if !word(i, "SELECT") {
                 return bad("select-keyword");
@@ -460,13 +551,14 @@ fn op_strategy() -> impl Strategy<Value = Op> {
         2 => (0usize..5).prop_map(Op::ValuesPanic),
         2 => proptest::collection::vec(0usize..5, 0..4).prop_map(Op::ValuesFromPanic),
         2 => (0usize..5).prop_map(Op::Select),
+        2 => (0usize..4, 0usize..4).prop_map(|(k, j)| Op::SelectUnion(k, j)),
         1 => Just(Op::Default),
         1 => (0u32..4).prop_map(Op::DefaultMany),
     ]
 }
 
 pub fn run(ctx: &mut Ctx) {
-    ctx.rule = "cases = call histories over columns(n) / values(w) / values_panic(w) / values_from_panic(rows) / select_from(k items) / \
+    ctx.rule = "cases = call histories over columns(n) / values(w) / values_panic(w) / values_from_panic(rows) / select_from(k items) / select_from(compound select, random part) / \
 or_default_values / or_default_values_many(n): all histories of length <= L over a 15-symbol alphabet (n, w, k in 0..=3) exhaustively, plus random \
 histories up to length 12 with widths 0..=4; rendered for the three backends in both modes. Non-trivial = at least one accepted and one rejected call; distinct by history."
         .into();
